@@ -63,7 +63,7 @@ def c10(tier, seed):
     out.add_tlc(r, "MC_GGM/GGM_hist6.cfg")
     t6, _ = _ggm_table(out, "GGM_hist6v.cfg", "C10-hist6v", workers=4)
     out.add_vh(run_vh(["ggm-replay", "--states", t6, "--mode", "tree"]), only={"C10"})
-    for cfg in (["GGM_sib10.cfg"] if not thorough else ["GGM_low8.cfg", "GGM_sib10.cfg", "GGM_unal12.cfg", "GGM_sub16.cfg", "GGM_mixed16.cfg"]):
+    for cfg in (["GGM_sib10.cfg"] if not thorough else ["GGM_low8.cfg", "GGM_sib10.cfg", "GGM_cous10.cfg", "GGM_unal12.cfg", "GGM_sub16.cfg", "GGM_mixed16.cfg"]):
         tbl, _ = _ggm_table(out, cfg, "C10-" + cfg[:-4], workers=10, timeout=3000)
         out.add_vh(run_vh(["ggm-replay", "--states", tbl, "--mode", "lattice"], timeout=3000), only={"C10"})
     if thorough:
@@ -100,7 +100,7 @@ def c11(tier, seed):
                 "distinct = distinct punctured set / export point")
     out.assumptions = [IDEAL, "the hook reports the retained (prefix, seed) list faithfully (it is add-only, read-only)"]
     thorough = tier == "thorough"
-    for cfg in (["GGM_sib10.cfg"] if not thorough else ["GGM_sib10.cfg", "GGM_unal12.cfg", "GGM_sub16.cfg"]):
+    for cfg in (["GGM_cous10.cfg"] if not thorough else ["GGM_sib10.cfg", "GGM_cous10.cfg", "GGM_unal12.cfg", "GGM_sub16.cfg"]):
         tbl, _ = _ggm_table(out, cfg, "C11-" + cfg[:-4], workers=10, timeout=3000)
         out.add_vh(run_vh(["ggm-replay", "--states", tbl, "--mode", "lattice", "--c11"], timeout=3000), only={"C11"})
     out.add_vh(run_vh(["ggm-export", "--seed", seed, "--runs", 16 if thorough else 6,
@@ -446,6 +446,7 @@ def c04(tier, seed):
         out.add_vh(run_vh(["derive-replay", "--lines", lp, "--seed", seed, "--vals", 10,
                            "--thrmaps", 5 if thorough else 4, "--clients", 16 if thorough else 3], timeout=3000), only={"C04"})
     out.add_vh(run_vh(["length-sweep", "--prop", "C04", "--seed", seed, "--max", 1000 if thorough else 300], timeout=3000), only={"C04"})
+    out.add_vh(run_vh(["thread-clients", "--seed", seed], timeout=3000), only={"C04"})
     return out
 
 
